@@ -8,6 +8,8 @@ use vcore::num::EPS;
 use vcore::{json, Check, Outcome, Report, Tier, Value};
 
 pub const K: f64 = 25.0;
+/// constant of the global bounds of C04 (worst observed ratio on the repaired tree: 1.0 x G x tol, so 6 leaves a factor 6)
+pub const KG: f64 = 6.0;
 const PROBLEMS12: [&str; 12] = ["lin+1", "lin-2", "logistic", "gauss", "cost", "relax", "bernoulli", "osc1", "rot2:lin-2+logistic", "rot2:cost+relax", "rot3:osc2.5+gauss", "rot4:osc1+logistic+bernoulli"];
 
 /// problems whose Lipschitz constant does not depend on the amplitude (linear in the state), run at large amplitude
@@ -408,7 +410,7 @@ impl Check for Global {
         "7 solvers x 10 closed-form problems x tolerance ladder with the C02 step cap (Euler: step ladder 0.1 x 2^-k / L), static dimension, and for 3 problems x 2 tolerances also dynamic dimension (must agree with the static run to rounding); every yielded state compared with the true solution; signature = (solver, ladder rung, end kind, static/dynamic)".into()
     }
     fn axes(&self, t: Tier) -> Value {
-        json!({"problems": PROBLEMS10, "tol": t.pick(vec![1e-3, 1e-6, 1e-9], vec![1e-3, 1e-4, 1e-5, 1e-6, 1e-7, 1e-8, 1e-9, 1e-10]), "euler_step*L": t.pick("0.1*2^-k, k in {0,3,6}", "0.1*2^-k, k=0..9"), "K": K})
+        json!({"problems": PROBLEMS10, "tol": t.pick(vec![1e-3, 1e-6, 1e-9], vec![1e-3, 1e-4, 1e-5, 1e-6, 1e-7, 1e-8, 1e-9, 1e-10]), "euler_step*L": t.pick("0.1*2^-k, k in {0,3,6}", "0.1*2^-k, k=0..9"), "K": KG})
     }
     fn points(&self, t: Tier) -> Vec<GlobalPt> {
         let mut v = vec![];
@@ -456,9 +458,9 @@ impl Check for Global {
                 let e2 = d.iter().map(|x| x * x).sum::<f64>().sqrt();
                 (e2, cfg.dtmax * m2 / (2.0 * l) * ((l * (t - cfg.t0)).exp() - 1.0) * (1.0 + 1e-6) + 64.0 * EPS * ninf(y) * (i as f64 + 1.0), "euler-first-order-bound")
             } else if bdf {
-                (ninf(&d), K * g * p.tol * (i as f64 + 1.0) + 64.0 * EPS * ninf(y), "global-error<=K*G*tol*steps")
+                (ninf(&d), KG * g * p.tol * (i as f64 + 1.0) + 64.0 * EPS * ninf(y), "global-error<=K*G*tol*steps")
             } else {
-                (ninf(&d), K * g * p.tol + 64.0 * EPS * ninf(y) * (i as f64 + 1.0), "global-error<=K*G*tol")
+                (ninf(&d), KG * g * p.tol + 64.0 * EPS * ninf(y) * (i as f64 + 1.0), "global-error<=K*G*tol")
             };
             worst = worst.max(err / bound);
             if !(err <= bound) {
@@ -496,7 +498,7 @@ impl Check for Global {
                 match (a, b) {
                     (Some(a), Some(b)) => {
                         let dy = a.1.iter().zip(&b.1).map(|(x, y)| (x - y).abs()).fold(0.0, f64::max);
-                        if !(a.0 == b.0 && dy <= 2.0 * K * g * p.tol) {
+                        if !(a.0 == b.0 && dy <= 2.0 * KG * g * p.tol) {
                             bad = Some(format!("different meshes ({} vs {} points) and end states ({:?}, {:?}) vs ({:?}, {:?})", st.items.len(), out.items.len(), a.0, a.1, b.0, b.1));
                         }
                     }
@@ -582,7 +584,7 @@ impl Check for ComplexTwin {
         let er = or.items.iter().map(|(t, y)| (C64::new(y[0], y[1]) - exact(*t)).norm()).fold(0.0, f64::max);
         let g = ((l * (t1 - t0)).exp() - 1.0) / l;
         let bdf = matches!(p.solver, Solver::BDF6 | Solver::BDF2);
-        let bound = if p.solver == Solver::Euler { cfg.dtmax * l * l * z0.norm() * (0.0f64.max(lam.re) * (t1 - t0)).exp() / (2.0 * l) * ((l * (t1 - t0)).exp() - 1.0) * 1.5 } else { K * g * p.tol * if bdf { oc.items.len().max(1) as f64 } else { 1.0 } } + 1e-13 * amp.max(1.0);
+        let bound = if p.solver == Solver::Euler { cfg.dtmax * l * l * z0.norm() * (0.0f64.max(lam.re) * (t1 - t0)).exp() / (2.0 * l) * ((l * (t1 - t0)).exp() - 1.0) * 1.5 } else { KG * g * p.tol * if bdf { oc.items.len().max(1) as f64 } else { 1.0 } } + 1e-13 * amp.max(1.0);
         o.metric(&format!("{}-complex-err/bound", p.solver.name()), ec / bound);
         if oc.items.is_empty() || end_name(&oc) != "Done" {
             o.viol(&subj, "complex-problem-is-solved", format!("{:?}: {} points, end {}", p, oc.items.len(), end_name(&oc)));
@@ -592,7 +594,7 @@ impl Check for ComplexTwin {
             }
             // (the slack is 1% of the NON-cumulative bound K G tol - the BDF bound grows with the number of steps and 1% of it
             // would hide a complex run that is hundreds of times less accurate than its real twin)
-            let slack = if p.solver == Solver::Euler { 0.01 * bound } else { 0.01 * K * g * p.tol };
+            let slack = if p.solver == Solver::Euler { 0.01 * bound } else { 0.25 * g * p.tol };
             if end_name(&or) == "Done" && !(ec <= 4.0 * er + 64.0 * EPS * oc.items.len() as f64 * amp.max(1.0) + slack) {
                 o.viol(&subj, "complex-as-accurate-as-real-twin", format!("{:?}: complex error {:e} vs real twin {:e}", p, ec, er));
             }
@@ -613,7 +615,7 @@ pub fn main_c02(mut r: Report) -> ! {
     r.finish()
 }
 pub fn main_c04(mut r: Report) -> ! {
-    r.assumptions = vec![format!("K = {}, G = (e^(LT)-1)/L from the catalogue", K), "Euler: textbook bound (hM/2L)(e^(L(t-t0))-1) in the 2-norm with M sampled from the closed form (+5%)".into()];
+    r.assumptions = vec![format!("K = {}, G = (e^(LT)-1)/L from the catalogue", KG), "Euler: textbook bound (hM/2L)(e^(L(t-t0))-1) in the 2-norm with M sampled from the closed form (+5%)".into()];
     r.run(&Global);
     r.run(&ComplexTwin);
     r.finish()
